@@ -230,14 +230,27 @@ def modfile():
     return ["-modfile=" + p]
 
 
-def build_impl():
+def build_impl(need_synct=False):
+    """cmd/impl (T1 components) and, when a property uses `s_*` components, the synctest test
+    binary harness/synct (T2 components). Both are rebuilt from REPO's working tree."""
     ov = overlay_file()
     out = os.path.join(BUILD, "impl")
     rc, o = sh([GO, "build"] + modfile() + ["-tags", "verif", "-overlay", ov, "-o", out, "./cmd/impl"],
                cwd=HARNESS, env=GOENV, timeout=1800)
     if rc != 0:
         raise Broken("Go harness does not build against the current tree (an export shim or a driven API no longer matches the code)", o[-4000:])
+    if need_synct:
+        rc, o = sh([GO, "test"] + modfile() + ["-c", "-tags", "verif", "-overlay", ov, "-o", os.path.join(BUILD, "synct"), "./synct"],
+                   cwd=HARNESS, env=GOENV, timeout=1800)
+        if rc != 0:
+            raise Broken("Go synctest harness does not build against the current tree", o[-4000:])
     return out
+
+
+def impl_cmd(impl, component):
+    if component.startswith("s_"):
+        return [os.path.join(BUILD, "synct"), "-test.run", "^TestImpl$", "-test.timeout", "0", "-comp", component]
+    return [impl, component]
 
 
 # ----------------------------------------------------------------------------- running
@@ -263,7 +276,7 @@ def run_impl(impl, component, cases, timeout=600):
     todo = list(range(len(cases)))
     while todo:
         text = "".join("reset\n" + "".join(op + "\n" for op in cases[i].ops) for i in todo)
-        rc, lines, err = run_lines([impl, component], text, timeout)
+        rc, lines, err = run_lines(impl_cmd(impl, component), text, timeout)
         pos = 0
         done = []
         crashed = False
@@ -407,13 +420,17 @@ def shrink(impl, exe, f, budget=40):
 # ----------------------------------------------------------------------------- known findings
 
 def load_known():
-    p = os.path.join(ROOT, "known_findings.jsonl")
+    """known_findings/<ID>.jsonl (committed, never written at run time), one JSON object per line:
+    {"property","id","kind":"known"|"fixed","component","op_re","verdict_re","impl_re"?,"what", ...}"""
+    d = os.path.join(ROOT, "known_findings")
     out = []
-    if os.path.exists(p):
-        for l in open(p):
-            l = l.strip()
-            if l and not l.startswith("#"):
-                out.append(json.loads(l))
+    if os.path.isdir(d):
+        for fn in sorted(os.listdir(d)):
+            if fn.endswith(".jsonl"):
+                for l in open(os.path.join(d, fn)):
+                    l = l.strip()
+                    if l and not l.startswith("#"):
+                        out.append(json.loads(l))
     return out
 
 
@@ -457,7 +474,7 @@ def replay(pid, path):
     with Lock():
         run_t4(prop.T4)
         exe = build_model_exe()
-        impl = build_impl()
+        impl = build_impl(data["component"].startswith("s_"))
     case = Case(data["component"], data["ops"], data.get("tag", ""))
     io = run_impl(impl, case.component, [case])[0]
     mo = run_model(exe, case.component, [case], [io])[0]
@@ -501,7 +518,7 @@ def check(pid, tier, seed):
                 if rc != 0:
                     broken.append("leanchecker rejects " + m); detail.append(o[-2000:])
         try:
-            impl = build_impl()
+            impl = build_impl(any(c.startswith("s_") for c in prop.COMPONENTS))
         except Broken as b:
             broken.append(b.what); detail.append(b.detail)
 
